@@ -268,7 +268,9 @@ func printDiff(a, b string, metadata []jd.Metadata) {
 	if *output == "" {
 		fmt.Print(str)
 	} else {
-		ioutil.WriteFile(*output, []byte(str), 0644)
+		if err := ioutil.WriteFile(*output, []byte(str), 0644); err != nil {
+			errorAndExit(err)
+		}
 	}
 	if haveDiff {
 		os.Exit(1)
@@ -284,7 +286,9 @@ func printDiffV2(a, b string, options []v2.Option) {
 	if *output == "" {
 		fmt.Print(str)
 	} else {
-		ioutil.WriteFile(*output, []byte(str), 0644)
+		if err := ioutil.WriteFile(*output, []byte(str), 0644); err != nil {
+			errorAndExit(err)
+		}
 	}
 	if haveDiff {
 		os.Exit(1)
@@ -445,7 +449,9 @@ func printPatch(p, a string, metadata []jd.Metadata) {
 	if *output == "" {
 		fmt.Print(out)
 	} else {
-		ioutil.WriteFile(*output, []byte(out), 0644)
+		if err := ioutil.WriteFile(*output, []byte(out), 0644); err != nil {
+			errorAndExit(err)
+		}
 	}
 	os.Exit(0)
 }
@@ -488,7 +494,9 @@ func printPatchV2(p, a string, options []v2.Option) {
 	if *output == "" {
 		fmt.Print(out)
 	} else {
-		ioutil.WriteFile(*output, []byte(out), 0644)
+		if err := ioutil.WriteFile(*output, []byte(out), 0644); err != nil {
+			errorAndExit(err)
+		}
 	}
 	os.Exit(0)
 }
@@ -544,7 +552,9 @@ func printTranslation(a string) {
 	if *output == "" {
 		fmt.Print(out)
 	} else {
-		ioutil.WriteFile(*output, []byte(out), 0644)
+		if err := ioutil.WriteFile(*output, []byte(out), 0644); err != nil {
+			errorAndExit(err)
+		}
 	}
 	os.Exit(0)
 }
@@ -600,7 +610,9 @@ func printTranslationV2(a string) {
 	if *output == "" {
 		fmt.Print(out)
 	} else {
-		ioutil.WriteFile(*output, []byte(out), 0644)
+		if err := ioutil.WriteFile(*output, []byte(out), 0644); err != nil {
+			errorAndExit(err)
+		}
 	}
 	os.Exit(0)
 }
